@@ -48,6 +48,7 @@ const (
 	ENoObject = "noobject"
 	ERegex    = "badregex"
 	EOther    = "error"
+	EUnspec   = "unspecified" // well-typed but outside every ordering (NaN probe): not judged
 )
 
 func canonCase(c Cons, s string) string {
@@ -184,6 +185,9 @@ func (m *Model) evalLeaf(l Leaf) (map[string]bool, string) {
 	}
 	if !validOps[l.Op] {
 		return nil, EOperator
+	}
+	if l.V.K == "nan" {
+		return nil, EUnspec
 	}
 	probe := normVal(l.V)
 	if p.Class == ClsStr {
